@@ -49,7 +49,7 @@ func (a *Addressing) ExtractMailbox(address string) (string, error) {
 		return "", fmt.Errorf("domain part %q in %q failed validation", domain, address)
 	}
 
-	return local + "@" + domain, nil
+	return local + "@" + canonicalDomain(domain), nil
 }
 
 // NewRecipient parses an address into a Recipient. This is used for parsing RCPT TO arguments,
@@ -238,7 +238,17 @@ func extractDomainMailbox(address string) (string, error) {
 		return "", fmt.Errorf("domain part %q in %q failed validation", domain, address)
 	}
 
-	return domain, nil
+	return canonicalDomain(domain), nil
+}
+
+// canonicalDomain returns the form of a domain used in mailbox names.  Domain names are
+// case-insensitive, so mail to user@Example.COM and user@example.com shares a mailbox; bracketed
+// address literals are kept as written.
+func canonicalDomain(domain string) string {
+	if strings.HasPrefix(domain, "[") {
+		return domain
+	}
+	return strings.ToLower(domain)
 }
 
 // parseEmailAddress unescapes an email address, and splits the local part from the domain part.  An
